@@ -98,7 +98,7 @@ CHECKS = {
             "DESIGN.md §4 C16", "E1-stateless"),
     "C17": ("exploration",
             "bounded exhaustive enumeration of (pattern list x location spelling x entry point) on the real handlers and refresh paths with canary files",
-            "11 pattern lists x 13 targets x dot-dot routes x <=1 (quick) / <=2 (thorough) spelling departures (segment insertions, percent-encoding, suffixes, relative and scheme prefixes) x 7 entry points (add, set-url, two-step set-url, forced and periodic refresh with the URL already configured, each of the two also with contents stored from an earlier fetch) x block/allow registry; canary content may show up (rules count, stored file, response body, probe verdict) only if the location is absolute and filepath.Match(p, filepath.Clean(loc)) holds for a configured pattern.",
+            "12 pattern lists x 13 targets x dot-dot routes x <=1 (quick) / <=2 (thorough) spelling departures (segment insertions, percent-encoding, suffixes, relative and scheme prefixes) x 8 entry points (add, add after another list of the same directory was added, set-url, two-step set-url, forced and periodic refresh with the URL already configured, each of the two also with contents stored from an earlier fetch) x block/allow registry; canary content may show up (rules count, stored file, response body, probe verdict) only if the location is absolute and filepath.Match(p, filepath.Clean(loc)) holds for a configured pattern.",
             "filepath.Clean/Match are the reference; symlink-free tree; only the 'only if' direction is demanded.",
             "DESIGN.md §4 C17", "E1-stateless"),
     "C18": ("exploration",
